@@ -83,6 +83,8 @@ pub struct Kid {
     pub wake_in_drop: bool,
     /// wakes its own waker in the very poll in which it returns Ready
     pub wake_on_ready: bool,
+    /// when pending: invoke the other child's waker *before* waking itself
+    pub other_first: bool,
     /// scripted panics (C07 profile only): panic at the k-th poll / in the destructor when
     /// dropped inside a collection poll
     pub panic_in_poll: u32,
@@ -278,6 +280,7 @@ pub struct World {
     pub armed: Cell<&'static str>,
     /// a scripted child panic is unwinding right now (the driver expects it)
     pub plain_join: Cell<bool>,
+    pub unit_join: Cell<bool>,
     /// the output token whose destructor panics (scripted)
     pub tok_panics: Cell<Option<u32>>,
     pub panic_outputs: Cell<bool>,
@@ -352,6 +355,7 @@ impl World {
             desc: RefCell::new(String::new()),
             armed: Cell::new(""),
             plain_join: Cell::new(false),
+            unit_join: Cell::new(false),
             tok_panics: Cell::new(None),
             panic_outputs: Cell::new(false),
             panic_leaks_ok: Cell::new(true),
@@ -376,9 +380,15 @@ impl World {
     }
 
     pub fn violation(&self, prop: &'static str, rule: &'static str, detail: String) {
-        if self.panic_mode.get() && prop != "C07" && !(prop == "C06" && (rule == "double_drop" || !self.panic_leaks_ok.get())) {
+        const C07_SAFETY: [&str; 7] = ["element_never_produced", "garbage_item", "garbage_error", "garbage_token_dropped", "unknown_token_dropped", "corrupt_token", "value_handed_out_twice"];
+        if self.panic_mode.get()
+            && !(prop == "C07" && C07_SAFETY.contains(&rule))
+            && !(prop == "C06" && (rule == "double_drop" || !self.panic_leaks_ok.get()))
+            && !(prop == "C05" && rule == "polled_after_drop")
+        {
             // (after a child panicked, what is judged is memory safety as safe code sees it: no
-            // value nobody produced, no value dropped twice - and for `join_all`, which has no
+            // value nobody produced or already dropped is handed out, nothing is dropped twice,
+            // no dropped future is polled - and for `join_all`, which has no
             // path on which a caught panic may lose anything, still every drop count. For
             // `try_join_all` leaks after a caught panic are tolerated: its error path gives up
             // what is left in the buffer when a destructor unwinds. Behavioural promises are off.)
@@ -471,6 +481,7 @@ impl World {
             wake_other: None,
             wake_in_drop: false,
             wake_on_ready: false,
+            other_first: false,
             panic_in_poll: 0,
             panic_in_drop: false,
             drops: 0,
@@ -550,8 +561,13 @@ impl World {
         let mut ks = self.kids.borrow_mut();
         let k = &mut ks[id as usize];
         if k.state == KState::Done || k.drops > 0 {
+            let dropped = k.drops > 0;
             drop(ks);
-            self.violation("C05", "polled_after_finish", format!("kid {id} polled again after it finished"));
+            if dropped {
+                self.violation("C05", "polled_after_drop", format!("kid {id} polled after it was dropped"));
+            } else {
+                self.violation("C05", "polled_after_finish", format!("kid {id} polled again after it finished"));
+            }
             return false;
         }
         match k.addr {
@@ -654,11 +670,19 @@ impl World {
         if let Some(wk) = evicted {
             self.drop_waker(wk, id);
         }
+        let other_first = self.kids.borrow()[id as usize].other_first;
+        if other_first {
+            if let Some(o) = other {
+                self.wake_kid(o, 0, 0);
+            }
+        }
         if self_wake {
             self.wake_ref(cx.waker(), id, 0);
         }
-        if let Some(o) = other {
-            self.wake_kid(o, 0, 0);
+        if !other_first {
+            if let Some(o) = other {
+                self.wake_kid(o, 0, 0);
+            }
         }
     }
 
@@ -744,6 +768,18 @@ impl World {
         };
         match step {
             SrcStep::Item | SrcStep::Infinite => {
+                // hostile but legal: a source that wakes itself and a sibling in the very poll
+                // in which it yields an item (a demultiplexer pumping a shared wire)
+                let (wself, wother) = {
+                    let ks = self.kids.borrow();
+                    (ks[id as usize].wake_on_ready, ks[id as usize].wake_other)
+                };
+                if wself {
+                    self.wake_ref(cx.waker(), id, 5);
+                    if let Some(o) = wother {
+                        self.wake_kid(o, 0, 0);
+                    }
+                }
                 let seq = {
                     let mut ks = self.kids.borrow_mut();
                     let k = &mut ks[id as usize];
